@@ -180,6 +180,21 @@ func checkC20(c *Check) {
 	if fn := p.Fn("Server.ListPeers"); fn != nil {
 		apps := p.callsIn(fn, descIs("builtin:append"))
 		ok := len(apps) == 1 && inLoop(apps[0].Block())
+		if len(apps) == 0 {
+			// pre-sized result filled by a counter: one store into result[i]
+			// per entry, result made with len(registry)
+			nst := 0
+			allInstrs(fn, func(in ssa.Instruction) {
+				if ia, isIA := in.(*ssa.IndexAddr); isIA && mapRangeCounterIdiom(ia) {
+					for _, r := range *ia.Referrers() {
+						if _, isS := r.(*ssa.Store); isS {
+							nst++
+						}
+					}
+				}
+			})
+			ok = nst == 1
+		}
 		rng := 0
 		allInstrs(fn, func(in ssa.Instruction) {
 			if _, isR := in.(*ssa.Range); isR {
